@@ -238,6 +238,11 @@ func (ex *Exec) frameCheck(fr *Frame, con *Contract, fin *State, env *SpecEnv) {
 // frameObligations proves that `fin` differs from `entry` only at the locations named by mods
 // (evaluated in the entry state) and at objects allocated after id minNew.
 func (ex *Exec) frameObligations(fr *Frame, kind string, entry, fin *State, modClauses []*Clause, env *SpecEnv, minNew int) {
+	for _, m := range modClauses {
+		if t := strings.TrimSpace(m.Text); t == "*" || t == "everything" {
+			return
+		}
+	}
 	if fin.heap.epoch != entry.heap.epoch {
 		ex.oblige(fr, fin, kind, "heap", False(), token.NoPos, "the heap was havoced by a call without contract; frame cannot be established")
 		return
